@@ -21,20 +21,24 @@ multi-term leaves, and the check compares these two operations on real objects o
 namespace WM.Normalize
 open WM.Sat
 
-/-- What `simplify`/`estimate_size` read from an `IndexReader` (no deleted documents). -/
+/-- What `simplify`/`estimate_size` read from an `IndexReader`. -/
 structure Reader where
   /-- field names of the schema -/
   fields : List Field
   /-- `ixreader.lexicon(fieldname)`: the terms of the field in order -/
   lexicon : Field → List Text
-  /-- the documents (for `doc_frequency` and `doc_count`) -/
+  /-- the live documents (for `doc_frequency` and `doc_count`) -/
   docs : List Doc
+  /-- the deleted documents that are still in a segment: the term infos of the codec are not updated
+      by a deletion, so `doc_frequency` (`W3TermInfo.doc_frequency`, summed over the segments by
+      `MultiReader.doc_frequency`) still counts them, while `doc_count()` does not -/
+  dead : List Doc := []
 
-/-- `ixreader.doc_frequency(fieldname, text)`. -/
+/-- `ixreader.doc_frequency(fieldname, text)`: counts live and deleted documents. -/
 def Reader.df (rd : Reader) (f : Field) (t : Text) : Nat :=
-  (rd.docs.filter fun d => (d.toks f).contains t).length
+  ((rd.docs ++ rd.dead).filter fun d => (d.toks f).contains t).length
 
-/-- `ixreader.doc_count()`. -/
+/-- `ixreader.doc_count()`: the number of undeleted documents. -/
 def Reader.docCount (rd : Reader) : Nat := rd.docs.length
 
 /-- `TermRange._btexts`: the terms from `start` on, skipping `start` itself if exclusive, up to
